@@ -107,6 +107,10 @@ class Analysis(object):
         self.wire = set()
         self.ret_origin = {}  # fn -> set
         self.ret_taint = {}
+        self._locguards = {}
+        self._inherited = {}
+        self._writes = {}
+        self._reach = {}
         self.solve()
 
     # ---- helpers --------------------------------------------------------
@@ -398,6 +402,163 @@ class Analysis(object):
                 # the bounding successor must not be reachable from the unbounded edge without passing the guard again
                 if len(info.pred.get(bounded, [])) == 1:
                     return True
+        return self.location_guarded(fname, block, reg)
+
+    # ---- memory-location guards (struct fields checked in one function, used in another) --------
+    def load_location(self, fname, ins):
+        if ins.op != 'load':
+            return None
+        o = self.origin_of(fname, ins.args[0])
+        if not o or any(off is None for (_, off) in o):
+            return None
+        return frozenset(o)
+
+    def location_guards(self, fname):
+        """[(bounded successor block, frozenset of locations)] for every bounding comparison of a value loaded from a
+        known memory location against an untainted operand"""
+        if fname in self._locguards:
+            return self._locguards[fname]
+        info = self.info[fname]
+        fn = info.fn
+        out = []
+        for g in fn.order:
+            term = fn.blocks[g][-1] if fn.blocks[g] else None
+            if term is None or term.op != 'br' or len(term.x['targets']) != 2 or term.args[0][1][0] != 'r':
+                continue
+            c = info.defs.get(term.args[0][1][1])
+            if c is None or c.op != 'icmp':
+                continue
+            (t1, a), (t2, b) = c.args
+            pred = c.x['pred']
+            for side, other in ((a, b), (b, a)):
+                if side[0] != 'r':
+                    continue
+                if other[0] == 'r' and self.taint.get((fname, other[1])):
+                    continue
+                locs = set()
+                for r in self.ancestry(fname, side[1]) | {side[1]}:
+                    d = info.defs.get(r)
+                    if d is not None:
+                        l = self.load_location(fname, d)
+                        if l:
+                            locs |= l
+                if not locs:
+                    continue
+                p = pred if side is a else SWAP[pred]
+                tsucc, fsucc = term.x['targets']
+                bounded = tsucc if p in BOUND_TRUE else fsucc
+                if tsucc != fsucc and len(info.pred.get(bounded, [])) == 1:
+                    out.append((bounded, frozenset(locs)))
+        self._locguards[fname] = out
+        return out
+
+    def object_writes(self, fname):
+        """[(block, index, object)] for every instruction that may write a local/global object in this function:
+        stores, mem-intrinsic destinations, out-parameters of library calls"""
+        if fname in self._writes:
+            return self._writes[fname]
+        fn = self.info[fname].fn
+        out = []
+        for b in fn.order:
+            for idx, ins in enumerate(fn.blocks[b]):
+                ptrs = []
+                if ins.op == 'store':
+                    ptrs = [ins.args[1]]
+                elif ins.op == 'call':
+                    name = callee_name(ins)
+                    mi = mem_intrinsic(name)
+                    if mi:
+                        ptrs = [ins.args[mi[0]]]
+                    elif name in RECV:
+                        ptrs = [ins.args[RECV[name][0]]]
+                    elif name not in PRINTF:
+                        # library decoders / internal helpers may write through any pointer argument
+                        ptrs = [a for a in ins.args if self.mod.resolve(a[0])[0] == 'p']
+                for p in ptrs:
+                    for (obj, off) in self.origin_of(fname, p):
+                        out.append((b, idx, obj))
+        self._writes[fname] = out
+        return out
+
+    def reach(self, fname):
+        if fname in self._reach:
+            return self._reach[fname]
+        info = self.info[fname]
+        r = {b: set(info.succ.get(b, [])) for b in info.fn.order}
+        changed = True
+        while changed:
+            changed = False
+            for b in r:
+                new = set(r[b])
+                for c in list(r[b]):
+                    new |= r.get(c, set())
+                if new != r[b]:
+                    r[b] = new
+                    changed = True
+        self._reach[fname] = r
+        return r
+
+    def locations_guarded_at(self, fname, block, idx=None):
+        """locations whose loaded value is bounded at (block, idx): a bounding guard dominates the point and the
+        object is not written again between the guard and the point"""
+        info = self.info[fname]
+        reach = self.reach(fname)
+        writes = self.object_writes(fname)
+        locs = set()
+        for bounded, ls in self.location_guards(fname):
+            if not info.dominates(bounded, block):
+                continue
+            for (obj, off) in ls:
+                killed = False
+                for (wb, widx, wobj) in writes:
+                    if wobj != obj or not info.dominates(bounded, wb):
+                        continue
+                    if wb == block:
+                        if idx is None or widx < idx:
+                            killed = True
+                    elif block in reach.get(wb, ()):
+                        killed = True
+                    if killed:
+                        break
+                if not killed:
+                    locs.add((obj, off))
+        return locs
+
+    def inherited_location_guards(self, fname, depth=0):
+        """locations bounded at *every* call site of fname (transitively)"""
+        if fname in self._inherited:
+            return self._inherited[fname]
+        self._inherited[fname] = set()
+        sites = []
+        for caller, fn in self.mod.functions.items():
+            for b in fn.order:
+                for ins in fn.blocks[b]:
+                    if ins.op == 'call' and callee_name(ins) == fname:
+                        here = self.locations_guarded_at(caller, b, fn.blocks[b].index(ins))
+                        if depth < 4:
+                            here = here | self.inherited_location_guards(caller, depth + 1)
+                        sites.append(here)
+        res = set.intersection(*sites) if sites else set()
+        self._inherited[fname] = res
+        return res
+
+    def location_guarded(self, fname, block, reg):
+        info = self.info[fname]
+        inherited = self.inherited_location_guards(fname)
+        if inherited:
+            # a location bounded by the callers stays bounded only if this function does not write the object
+            mine = set(o for (_, _, o) in self.object_writes(fname))
+            inherited = set((o, off) for (o, off) in inherited if o not in mine)
+        ok = self.locations_guarded_at(fname, block) | inherited
+        if not ok:
+            return False
+        for r in self.ancestry(fname, reg) | {reg}:
+            d = info.defs.get(r)
+            if d is None:
+                continue
+            l = self.load_location(fname, d)
+            if l and l <= ok:
+                return True
         return False
 
     # ---- findings ---------------------------------------------------------
